@@ -209,6 +209,18 @@ def int_value(n, ast=None, file=None, depth=0):
 
 
 # ------------------------------------------------------------------ origin
+_SHORT = [False]
+
+
+def origin_short(fn, n):
+    """origin() with call/method arguments elided: `write_mid()#1`, `x.max()`"""
+    _SHORT[0] = True
+    try:
+        return origin(fn, n)
+    finally:
+        _SHORT[0] = False
+
+
 def origin(fn, n, depth=0):
     """provenance descriptor string for expression n inside fn.
     params are positional (p0, p1, ...; self = self); locals are followed through
@@ -231,26 +243,21 @@ def origin(fn, n, depth=0):
             return "const:" + p.split("::")[-1] if p.split("::")[-1].isupper() else "path:" + p
         if p == "self":
             return "self"
-        sites = resolve_local(fn, p)
-        # choose the binding that precedes n and is nearest
-        best = None
-        for s in sites:
-            if s[0] == "param":
-                cand_order = -1
-            else:
-                cand_order = s[1].order
-            if cand_order < n.order and (best is None or cand_order > best[0]):
-                best = (cand_order, s)
-        if best is None:
+        s = astq.binding_before(fn, p, n)
+        if s is None:
             return "free:" + p
-        s = best[1]
         if s[0] == "param":
             return "p%d" % s[1]
         kind, site, path = s[0], s[1], s[-1]
         if kind == "let":
+            # a `mut` local that was re-assigned before this use: follow the latest dominating assignment
+            a = _last_assignment(fn, p, site, n)
+            if a is not None:
+                if a == "phi":
+                    return "phi:" + p
+                return origin(fn, a["r"], depth + 1)
             init = site.get("init")
             if init is None:
-                # declared, assigned later: look for single assignment
                 return "letvar:" + p
             base = origin(fn, init, depth + 1)
             return base + _path_s(path)
@@ -270,6 +277,8 @@ def origin(fn, n, depth=0):
     if k == "index":
         return origin(fn, n["base"], depth + 1) + "[" + origin(fn, n["index"], depth + 1) + "]"
     if k == "mcall":
+        if _SHORT[0]:
+            return origin(fn, n["recv"], depth + 1) + "." + n["method"] + "()"
         return origin(fn, n["recv"], depth + 1) + "." + n["method"] + "(" + ",".join(
             origin(fn, a, depth + 1) for a in n["args"]) + ")"
     if k == "call":
@@ -277,6 +286,8 @@ def origin(fn, n, depth=0):
         fname = f["path"] if isinstance(f, Node) and f.k == "path" else up(f)
         if fname in ("u64::from", "u32::from", "f64::from", "usize::from", "u16::from", "Some", "Ok") and len(n["args"]) == 1:
             return origin(fn, n["args"][0], depth + 1)
+        if _SHORT[0]:
+            return fname.split("::")[-1] + "()"
         return fname.split("::")[-1] + "(" + ",".join(origin(fn, a, depth + 1) for a in n["args"]) + ")"
     if k == "binary":
         return "(" + origin(fn, n["l"], depth + 1) + n["op"] + origin(fn, n["r"], depth + 1) + ")"
@@ -300,6 +311,35 @@ def origin(fn, n, depth=0):
     if k == "closure":
         return _closure_origin(n)
     return "?" + k
+
+
+def _last_assignment(fn, name, let_site, use):
+    """latest `name = expr` between the let and the use (same scope chain); 'phi' if it is conditional w.r.t. the use"""
+    best = None
+    for a in _assigns(fn).get(name, []):
+        if let_site.order < a.order < use.order and not astq._is_ancestor(a, use):
+            if best is None or a.order > best.order:
+                best = a
+    if best is None:
+        return None
+    # the use inside the RHS of the assignment itself refers to the previous value
+    if astq.dominates(best, use):
+        return best
+    return "phi"
+
+
+def _assigns(fn, _cache={}):
+    key = id(fn)
+    if key not in _cache or _cache[key][0] is not fn:
+        d = {}
+        if fn.body is not None:
+            for x in walk_no_nested_fn(fn.body):
+                if x.k == "assign":
+                    l = strip(x["l"])
+                    if isinstance(l, Node) and l.k == "path" and "::" not in l["path"]:
+                        d.setdefault(l["path"], []).append(x)
+        _cache[key] = (fn, d)
+    return _cache[key][1]
 
 
 def _closure_origin(c):
